@@ -5,8 +5,8 @@ from .. import lib, atomtable as at
 
 PID = "C15"
 TIERS = {
-    "quick":    dict(mc="MC_ReadersAgree_quick.cfg", tables=300, corpus=(4, 4)),
-    "thorough": dict(mc="MC_ReadersAgree_thorough.cfg", tables=5000, corpus=(9, 8)),
+    "quick":    dict(mc="MC_ReadersAgree_quick.cfg", tables=300, dups=48, corpus=(4, 4)),
+    "thorough": dict(mc="MC_ReadersAgree_thorough.cfg", tables=5000, dups=600, corpus=(9, 8)),
 }
 ACTIONS = ("WriteLine", "Close", "V1Read", "V1Connect", "V2GroupBy", "V2SortChain", "V2SegmentStep", "V2Flush")
 # seeded design variants (not defects of the code): they show that ReadersAgree is not vacuous
@@ -41,9 +41,10 @@ def run(tier):
         neg_jobs = [(why, pool.submit(lib.mc, "MC_ReadersAgree", cfg, sc, expect_violation=inv, workers=2))
                     for cfg, inv, why in NEG]
         tables = at.c15_tables(t["tables"], lib.seed())
+        dups = at.c15_dup_tables(t["dups"], lib.seed())
         corpus = at.c15_corpus_tables(at.CORPUS_C15[:t["corpus"][0]], t["corpus"][1], lib.seed())
-        emitted = at.check_emitters(tables + corpus)    # machinery guard (own tokenizers read the emitters back)
-        cases = at.c15_cases(tables + corpus)
+        emitted = at.check_emitters(tables + dups + corpus)    # machinery guard (own tokenizers read the emitters back)
+        cases = at.c15_cases(tables + dups + corpus)
         import time
         t0 = time.time()
         rec = lib.pmap(at.record_c15, cases)
@@ -75,6 +76,7 @@ def run(tier):
             return any(k.startswith("bond") for k in ls) and any(not k.startswith("bond") for k in ls)
         cov["distinct_nontrivial"] = len({json.dumps(x["lines"], sort_keys=True) for x in tables if mixed(x)})
         cov["chi_magnitudes_compared"] = chi
+        cov["repeated_record_tables"] = len(dups)
         cov["cases_skipped_outside_domain"] = len(skipped)
         cov["emitter_roundtrips_checked"] = emitted
         cov["link_classes"] = {k: sum(1 for x in tables if k in x["links"]) for k in at.LINKS}
@@ -88,7 +90,10 @@ def run(tier):
             "milli-Angstrom integers by rounding, |chi| as micro-radians (tolerance 10)",
             "scope (decided by the spec, AgreeDomain): one model, no alternate locations, every atom once, no two atoms within "
             "0.5 A, no O3'-P distance exactly 2.4 A, residue numbers ascending within a chain in file order; cases outside "
-            "are skipped and counted",
+            "are skipped and counted; tables with REPEATED atom records (equally occupied, no alternate-location flag) "
+            "form a second domain (DupDomain) on which only agreement is demanded - the same residues and atom names, "
+            "every reported atom one of the written records, the same connectivity answer of all four readings on each "
+            "consecutive pair, |chi| alike - since which record a reader keeps is not fixed by the statement",
             "only |chi| is compared: the sign convention of tertiary_v2 belongs to property C18",
             "residue order is not compared (the table-level reader sorts residues); connectivity of the residue-level "
             "reader is queried for every ordered pair of residues of a chain",
